@@ -117,6 +117,7 @@ def validate_traces(ctx, recs, cases_by_id, maxfates=("ok", "fatal", "retry1", "
 def replay_only(ctx):
     d = json.load(open(ctx.replay))["detail"]
     recs = replay(ctx, [d["behaviour"]], shards=1)
+    validate_traces(ctx, recs, {"b0": d["behaviour"]})     # the free-running execution of the replay is validated as well
     return ctx.finish(rule="re-execution of one recorded behaviour")
 
 
